@@ -4,10 +4,10 @@ from verifkit import read_lines
 
 REQUIRED = ["DaeVerif.C06.Props." + n for n in (
     "tls_sni_found", "tls_sni_sound", "tls_total", "tls_record_total",
-    "sniff_tcp_chunk_invariant", "normalize_ordinary_name", "relay_identity", "sniff_stops_at_deadline",
-    "http_host_found",
+    "sniff_tcp_chunk_invariant", "normalize_ordinary_name", "relay_identity", "sniff_tcp_sound",
+    "http_host_found", "http_host_sound", "sniff_tcp_http_one_read",
     "quic_sni_sound", "reassembly_keeps_slices", "quic_flight_found",
-    "unprotect_then_restore", "udp_data_kept", "udp_not_withheld_when_complete", "udp_flow_in_order",
+    "udp_not_withheld_when_complete", "udp_flow_in_order",
 )]
 
 
